@@ -342,7 +342,7 @@ def generate(seed, tier):
     max_depth = r.choice([2, 3, 3, 4, 5])
     npool = r.randint(3, 9)
     if mode == "strict":
-        ck = dict(const_kinds=("i", "i", "i", "fx"), const_values=(0, 1, 2, 3, 4, 7, -1))
+        ck = dict(const_kinds=("i", "i", "i", "fx"), const_values=(0, 1, 2, 3, 4, 7, -1, -2))
     else:
         ck = dict(const_kinds=("i", "f", "b", "npi"), const_values=(1, 4))
     pool_names = []
@@ -380,6 +380,15 @@ def generate(seed, tier):
         name = f"e{k}"
         ops.append(["def", name, g.term(0)])
         pool_names.append(name)
+    if mode == "strict":
+        # unequal twins with equal hashes (class swapped at a nested node, -1 <-> -2)
+        for k in range(r.randint(0, 3)):
+            src = ops[r.randrange(npool)][2]
+            v = spec.collide_variant(r, src, allowed=classes, nested_only=r.random() < 0.7)
+            if v is not None:
+                name = f"e{len(pool_names)}"
+                ops.append(["def", name, v])
+                pool_names.append(name)
     if mode == "nv":
         # typed twins of pool entries: the same term with every constant re-typed
         def retype(t):
@@ -394,7 +403,7 @@ def generate(seed, tier):
             return t
         for k in range(min(3, npool)):
             src = ops[k][2]
-            name = f"e{npool + k}"
+            name = f"e{len(pool_names)}"
             ops.append(["def", name, retype(src)])
             pool_names.append(name)
 
